@@ -568,3 +568,72 @@ def c19():
 
 
 CHECKS["C19"] = c19
+
+
+# ----------------------------------------------------------------------------- C13
+def c13():
+    """data races: the race-detector build of the driver executes the campaign's programs (3 modes x monitor on/off x yield injection,
+    including the API calls a driver makes after completion); every report is a violation unless it is a listed finding"""
+    import rt, glob as _glob
+    t0 = time.time()
+    v = vlib.Verdict("C13")
+    tier, seed = vlib.tier(), vlib.seed()
+    vlib.build(("vdrive", "vblack-race"))   # race build WITHOUT the hooks: the tracer global would itself be reported
+    with vlib.Work("c13") as work:
+        progs = rt.fixed_corpus() + rt.pgen_programs(tier, seed)[:: (3 if tier == "quick" else 1)]
+        rt.frontend(progs)
+        run = [p for p in progs if p["runnable"]]
+        # ownership discipline of the specification: a process body (AST) is owned by exactly one goroutine; the DUP, CALL and CUT
+        # actions of GritsRT copy / move it (GritsRT.tla).  The detector observes what the specification cannot: unsynchronised accesses.
+        cfgs = []
+        for mode in ("async", "sync", "np"):
+            for mon in (False, True):
+                cfgs.append((mode, 16, mon, 0.0, seed))
+                if tier == "thorough" or mode == "async":
+                    cfgs.append((mode, 4, mon, 0.3, seed + 1))
+        jobs = []
+        for p in run:
+            for (mode, gmp, mon, yld, rs) in cfgs:
+                jobs.append({"id": "%s|%s|%d|%d|%.1f" % (p["name"], mode, gmp, int(mon), yld), "text": p["text"], "mode": mode, "typecheck": True, "execute": True,
+                             "monitor": mon, "gomaxprocs": gmp, "seed": rs, "yield": yld, "trace": yld > 0, "dump": False, "max_ms": 12000, "max_events": 30000,
+                             "post_calls": True})
+        logdir = work.path("race")
+        os.makedirs(logdir)
+        res = vlib.run_jobs(os.path.join(vlib.BUILD, "vblack-race"), jobs, batch=6, timeout=60, parallel=max(2, vlib.NCPU // 2),
+                            extra_env={"GORACE": "log_path=%s/r halt_on_error=0 history_size=2" % logdir})
+        reports = []
+        for f in sorted(_glob.glob(os.path.join(logdir, "r.*"))):
+            txt = open(f, errors="replace").read()
+            for blk in txt.split("WARNING: DATA RACE")[1:]:
+                blk = blk.split("==================")[0]
+                fns = re.findall(r"^\s+(grits/[\w/.()*]+)\(", blk, re.M)
+                heads = []
+                for part in re.split(r"\n(?=Previous |Goroutine )", blk)[:2]:
+                    m = re.search(r"^\s+(grits/[\w/.()*]+)\(", part, re.M)
+                    if m:
+                        heads.append(m.group(1))
+                reports.append({"heads": sorted(set(heads)), "text": blk[:1800]})
+        seen = {}
+        for rp in reports:
+            seen.setdefault(tuple(rp["heads"]), rp)
+        for heads, rp in seen.items():
+            v.violation("data race between %s" % (" and ".join(heads) or "(unknown frames)"), {"report": rp["text"], "heads": list(heads)},
+                        {"kind": "race", "heads": list(heads),
+                         "debug_counters": all(any(k in h for k in ("CreateFreshChannel", "ProcessCount", "DeadProcessCount", "SpawnThenTransition", "terminate")) for h in heads)})
+        crashes = [(j["id"], res[j["id"]]) for j in jobs if res[j["id"]].get("crash")]
+        for jid, r in crashes[:3]:
+            v.notes.append("race-build run %s crashed (C01's concern): %s" % (jid, r["crash"][:200]))
+        cov = {"evaluations": len(jobs), "distinct_nontrivial": len({j["id"].split("|")[0] for j in jobs}),
+               "rule": "one evaluation = one run of an accepted closed program under the race detector in one configuration (mode x monitor x cores x yield injection) followed by the post-run API calls; "
+                       "distinct = distinct programs (fixed corpus + generated trees)",
+               "samples": [{"job": jobs[0]["id"], "program": jobs[0]["text"][:400]}],
+               "race_reports": len(reports), "distinct_race_sites": len(seen), "configurations": [list(c) for c in cfgs], "programs": len(run),
+               "runs_crashed": len(crashes)}
+        vlib.write_evidence("C13", "other", cov, time.time() - t0, len(v.violations),
+                            ["Go-memory-model races are below the abstraction level of TLA+ actions: the race detector, not TLC, observes them; the specifications contribute the programs, "
+                             "the configuration matrix and the ownership discipline (one goroutine per process body; DUP / CALL copy, CUT moves) that the reports are read against",
+                             "the detector only reports races on accesses that actually happen in a run (dynamic analysis)"])
+    return v.finish()
+
+
+CHECKS["C13"] = c13
